@@ -18,6 +18,8 @@ import time
 import traceback
 
 HERE = os.path.dirname(os.path.dirname(os.path.abspath(__file__)))
+# evidence and replay files go under OUT (the checkout itself unless a scratch variant of the repository is being checked)
+OUT = os.environ.get("VERIF_OUT") or HERE
 
 
 def _gen_fn(args):
@@ -72,8 +74,30 @@ def _bounded_task(args):
     return ("bounded", modname, res)
 
 
+def _gen_mutant(args):
+    """self-test: one deliberately broken in-memory variant of a function under contract; the variant is
+    installed in this worker only for the duration of the task and never touches the repository"""
+    idx, opts = args
+    from pyvc import source
+    from pyvc.run import _gen
+    from selftest.mutants import MUTANTS
+
+    prop, q, mod, old, new = MUTANTS[idx]
+    mi = source.load(mod, fresh=True)
+    if old not in mi.text:
+        return ("mutant", idx, {"function": q, "status": "NOT-APPLICABLE", "obligations": [], "reason": "text not found in the current source", "seconds": 0})
+    source.override(mod, mi.text.replace(old, new, 1))
+    try:
+        rep = _gen((q, opts))
+    finally:
+        source.reset()
+    return ("mutant", idx, rep)
+
+
 def _run(task):
     kind = task[0]
+    if kind == "mutant":
+        return _gen_mutant(task[1:])
     if kind == "fn":
         return _gen_fn(task[1:])
     if kind == "lemma":
@@ -143,7 +167,12 @@ def main(argv=None):
     if not a.no_bounded:
         for modname, bopts in cfg.get("bounded", []):
             tasks.append(("bounded", modname, tier, seed, bopts))
-    # heavy tasks first
+    # thorough tier: the self-test mutants of this property (each must lose at least one obligation)
+    mut_opts = {"timeout_ms": 4000, "cvc5_timeout_ms": 0}
+    if tier == "thorough" and not a.no_deductive and os.environ.get("VERIF_SELFTEST", "1") != "0" and not a.only:
+        from selftest.mutants import MUTANTS
+
+        tasks += [("mutant", i, mut_opts) for i, m in enumerate(MUTANTS) if m[0] == pid]
     results = []
     if tasks:
         from pyvc.verify import settle
@@ -155,26 +184,36 @@ def main(argv=None):
             solve_async = []
             for r in pool.imap_unordered(_run, tasks, chunksize=1):
                 results.append(r)
-                if r[0] in ("fn", "lemma"):
+                if r[0] in ("fn", "lemma", "mutant"):
                     rep = r[2]
+                    so = mut_opts if r[0] == "mutant" else opts
                     for oi, ob in enumerate(rep["obligations"]):
                         if ob.get("status") == "pending":
-                            t = ((len(results) - 1, oi), ob.pop("smt2"), ob.pop("relaxed", None), opts["timeout_ms"], opts["cvc5_timeout_ms"], ob.pop("noseq", None), ob.pop("linear", None), ob.pop("sliced", None))
+                            t = ((len(results) - 1, oi), ob.pop("smt2"), ob.pop("relaxed", None), so["timeout_ms"], so["cvc5_timeout_ms"], ob.pop("noseq", None), ob.pop("linear", None), ob.pop("sliced", None))
                             solve_async.append(pool.apply_async(_run, (("solve", t),)))
             # phase 2: collect the solver verdicts
             for ar in solve_async:
                 _, (ri, oi), verdict = ar.get()
                 results[ri][2]["obligations"][oi].update(verdict)
         for r in results:
-            if r[0] in ("fn", "lemma"):
+            if r[0] in ("fn", "lemma", "mutant") and r[2]["status"] != "NOT-APPLICABLE":
                 settle(r[2])
+    mutant_reports = []
+    if any(r[0] == "mutant" for r in results):
+        from selftest.mutants import MUTANTS
+
+        for r in results:
+            if r[0] == "mutant":
+                prop, q, mod, old, new = MUTANTS[r[1]]
+                lost = [o["name"].split("::")[-1] for o in r[2]["obligations"] if o["status"] != "discharged"]
+                mutant_reports.append({"function": q, "old": old.strip()[:80], "new": new.strip()[:80], "verdict": r[2]["status"], "survived": r[2]["status"] == "PROVED", "obligations_lost": len(lost), "first_lost": lost[:2] or r[2].get("reason", "")[:120]})
     fn_reports = sorted([r[2] for r in results if r[0] == "fn"], key=lambda d: d["function"])
     lemma_reports = sorted([r[2] for r in results if r[0] == "lemma"], key=lambda d: d["lemma"])
     bounded_reports = sorted([r[2] for r in results if r[0] == "bounded"], key=lambda d: d["module"])
 
     known = load_known()
-    os.makedirs(os.path.join(HERE, "replay"), exist_ok=True)
-    os.makedirs(os.path.join(HERE, "evidence"), exist_ok=True)
+    os.makedirs(os.path.join(OUT, "replay"), exist_ok=True)
+    os.makedirs(os.path.join(OUT, "evidence"), exist_ok=True)
     violations = []
     known_lines = []
     errors = []
@@ -196,7 +235,7 @@ def main(argv=None):
                 continue
             concrete.append(f)
     for i, f in enumerate(concrete[:5]):
-        path = os.path.join(HERE, "replay", f"{pid}_{f['check'].split('.')[-1]}_{i}.json")
+        path = os.path.join(OUT, "replay", f"{pid}_{f['check'].split('.')[-1]}_{i}.json")
         with open(path, "w") as fh:
             json.dump({"property": pid, "check": f["check"], "input": f.get("input"), "message": f.get("message"), "classes": f.get("classes", [])}, fh, indent=1, default=str)
         violations.append((path, f"{f['check']}: {f.get('message', '')[:300]}", ""))
@@ -225,7 +264,7 @@ def main(argv=None):
                         json.dump(d, fh, indent=1, default=str)
                     violations.append((path, f"obligation {o['name']} refuted ({o['backend']})", ""))
                 else:
-                    path = os.path.join(HERE, "replay", f"{pid}_obligation_{len(violations)}.json")
+                    path = os.path.join(OUT, "replay", f"{pid}_obligation_{len(violations)}.json")
                     with open(path, "w") as fh:
                         json.dump({"property": pid, "failed_obligation": o["name"], "function": name, "solver": o["backend"], "solver_output": "sat", "model": o.get("model", ""), "note": "no concrete failing input was found by the bounded tier within its bounds"}, fh, indent=1)
                     violations.append((path, f"obligation {o['name']} refuted ({o['backend']})", " no-failing-input-found"))
@@ -236,7 +275,12 @@ def main(argv=None):
         errors.append("no obligations generated for a proof-level claim")
 
     wall = time.time() - t0
-    write_evidence(pid, cfg, tier, seed, fn_reports, lemma_reports, bounded_reports, all_obls, violations, known_lines, undecided, errors, wall)
+    write_evidence(pid, cfg, tier, seed, fn_reports, lemma_reports, bounded_reports, all_obls, violations, known_lines, undecided, errors, wall, mutant_reports)
+    if mutant_reports:
+        surv = [m for m in mutant_reports if m["survived"]]
+        print(f"[{pid}] self-test: {len(mutant_reports)} broken in-memory variants of the functions under contract, {sum(1 for m in mutant_reports if not m['survived'] and m['verdict'] != 'NOT-APPLICABLE')} lose an obligation, {len(surv)} still verify, {sum(1 for m in mutant_reports if m['verdict'] == 'NOT-APPLICABLE')} not applicable to this source")
+        for m in surv:
+            print(f"SELFTEST-SURVIVOR property={pid} {m['function']}: {m['old']} -> {m['new']}")
 
     for line in known_lines:
         print(line)
@@ -259,7 +303,7 @@ def main(argv=None):
     return 0
 
 
-def write_evidence(pid, cfg, tier, seed, fn_reports, lemma_reports, bounded_reports, all_obls, violations, known_lines, undecided, errors, wall):
+def write_evidence(pid, cfg, tier, seed, fn_reports, lemma_reports, bounded_reports, all_obls, violations, known_lines, undecided, errors, wall, mutant_reports=()):
     n_obl = len(all_obls)
     n_dis = sum(1 for o in all_obls if o["status"] == "discharged")
     backends = {}
@@ -302,6 +346,8 @@ def write_evidence(pid, cfg, tier, seed, fn_reports, lemma_reports, bounded_repo
         "not_decided": undecided,
         "checker_errors": errors,
     }
+    if mutant_reports:
+        cov["selftest_mutants"] = {"total": len(mutant_reports), "killed": sum(1 for m in mutant_reports if not m["survived"] and m["verdict"] != "NOT-APPLICABLE"), "survived": sum(1 for m in mutant_reports if m["survived"]), "detail": list(mutant_reports)}
     if not evals:
         cov["evaluations_note"] = "bounded stage not run or empty: evaluations/distinct_nontrivial are schema minimums, not measurements"
     ev = {
@@ -314,7 +360,7 @@ def write_evidence(pid, cfg, tier, seed, fn_reports, lemma_reports, bounded_repo
         "wall_s": round(wall, 2),
         "violations": len({(p, s) for p, _, s in violations}),
     }
-    with open(os.path.join(HERE, "evidence", f"{pid}.json"), "w") as fh:
+    with open(os.path.join(OUT, "evidence", f"{pid}.json"), "w") as fh:
         json.dump(ev, fh, indent=1, default=str)
 
 
